@@ -90,6 +90,9 @@ def build_pool(seed: int, tier: str):
     add("include-other-content", "*=0x018000\n.include 'part.s'\n.dl lb_inc\n", "low", {"part.s": ".db 1, 2\nlb_inc:\n"}, entries=("mem",))
     add("incbin-user", "*=0x018000\n.incbin 'blob.bin'\nlb_after:\n.dl lb_after, blob_bin, blob_bin__size\n", "low", {"blob.bin": {"hex": "0102030405"}}, entries=("mem", "file_ips"))
     add("incbin-other-content", "*=0x018000\n.incbin 'blob.bin'\nlb_after:\n.dl lb_after, blob_bin, blob_bin__size\n", "low", {"blob.bin": {"pat": [5, 300]}}, entries=("mem", "cli"))
+    add("fail-codegen-after-incbin", "*=0x018000\n.incbin 'blob.bin'\nm_undefined_zz(1)\n", "low", {"blob.bin": {"hex": "0a0b0c"}}, entries=("mem", "cli"))
+    add("fail-missing-table-after-incbin-and-include", "*=0x018000\n.incbin 'blob.bin'\n.include 'part.s'\n.table 'nope.tbl'\n", "low", {"blob.bin": {"hex": "0a0b0c"}, "part.s": "lb_inc:\n.db 9\n"}, entries=("mem", "file_ips"))
+    add("incbin-twice", "*=0x018000\n{\n.incbin 'blob.bin'\n.dl blob_bin\n}\n{\n.incbin 'blob.bin'\n.dl blob_bin, blob_bin__size\n}\n", "low", {"blob.bin": {"hex": "0102"}}, entries=("mem", "file_sfc"))
     add("ips-user", "*=0x018000\n.db 1\n.include_ips 'p.ips', 0\n", "low", {"p.ips": {"hex": (b"PATCH" + b"\x02\x00\x00\x00\x02ab" + b"EOF").hex()}}, entries=("mem",))
     add("ips-other-content", "*=0x018000\n.db 1\n.include_ips 'p.ips', 0\n", "low", {"p.ips": {"hex": (b"PATCH" + b"\x03\x00\x00\x00\x00\x00\x04\x7e" + b"EOF").hex()}}, entries=("mem", "file_ips"))
     # failures at every stage
